@@ -10,12 +10,14 @@ package main
 // the same exported functions over a bytes.Reader (an io.ByteReader: no adaptor involved).
 
 import (
+	"bufio"
 	"bytes"
 	"encoding/json"
 	"fmt"
 	"io"
 	"os"
 	"path/filepath"
+	"strconv"
 	"strings"
 
 	mxj "github.com/clbanning/mxj/v2"
@@ -539,6 +541,7 @@ type c13Case struct {
 	Stop   int      `json:"stop"`  // handlers: mapHandler returns false on this call (-1: never)
 	EhRet  bool     `json:"ehret"` // handlers: what errHandler returns
 	Mal    bool     `json:"malformed,omitempty"`
+	Std    string   `json:"stdreader,omitempty"` // non-empty: the stream is read through this standard-library reader (Go-side oracle only)
 }
 
 var wsPool = []string{"", "", " ", "\n", "\r\n", " \t\n ", "  "}
@@ -1183,6 +1186,9 @@ func runC13(cfg runCfg) error {
 		}
 	}
 
+	// ---- long documents through the standard-library readers (Go-side oracle)
+	c13LongDocs(run, r)
+
 	// ---- random streams and scripts
 	for run.sum.Evaluations < cfg.n {
 		c := c13Case{Fn: c13Fns[r.Intn(len(c13Fns))], Stop: -1, EhRet: true}
@@ -1219,12 +1225,151 @@ func runC13(cfg runCfg) error {
 	return run.finish()
 }
 
+// ---------------------------------------------------------------- standard-library readers, long documents
+
+var c13StdReaders = []string{"strings.Reader", "bytes.Reader", "bytes.Buffer", "bufio.Reader", "os.File", "iotest.OneByte"}
+
+type oneByteReader struct{ r io.Reader }
+
+func (o oneByteReader) Read(p []byte) (int, error) {
+	if len(p) == 0 {
+		return 0, nil
+	}
+	return o.r.Read(p[:1])
+}
+
+// c13StdRun reads the stream of c to its end through the named standard-library reader: what each call returned,
+// and what the statement prescribes (each document decoded directly, then io.EOF).
+func c13StdRun(c c13Case) (got, want []string) {
+	var rd io.Reader
+	switch c.Std {
+	case "strings.Reader":
+		rd = strings.NewReader(string(c.Stream))
+	case "bytes.Reader":
+		rd = bytes.NewReader(c.Stream)
+	case "bytes.Buffer":
+		rd = bytes.NewBuffer(append([]byte{}, c.Stream...))
+	case "bufio.Reader":
+		rd = bufio.NewReaderSize(plainReader{bytes.NewReader(c.Stream)}, 16)
+	case "iotest.OneByte":
+		rd = oneByteReader{bytes.NewReader(c.Stream)}
+	case "os.File":
+		tmp, err := os.MkdirTemp("/verif/build", "c13s-")
+		if err != nil {
+			return []string{"mkdir: " + err.Error()}, nil
+		}
+		defer os.RemoveAll(tmp)
+		name := filepath.Join(tmp, "stream.dat")
+		if err := os.WriteFile(name, c.Stream, 0o644); err != nil {
+			return []string{"write: " + err.Error()}, nil
+		}
+		f, err := os.Open(name)
+		if err != nil {
+			return []string{"open: " + err.Error()}, nil
+		}
+		defer f.Close()
+		rd = f
+	}
+	for k := 0; k <= len(c.Docs)+1; k++ {
+		o, _ := readerFns[c.Fn](rd)
+		got = append(got, resText(o))
+		if o.Panicked || o.Err != nil {
+			break
+		}
+	}
+	for _, d := range c.Docs {
+		want = append(want, resText(directDoc(c.Fn, d)))
+	}
+	want = append(want, "error:EEOF")
+	return
+}
+
+func c13StdOne(run *Run, c c13Case) {
+	run.sum.OracleEvals++
+	run.count("stdlib-reader:" + c.Std)
+	got, want := c13StdRun(c)
+	if strings.Join(got, " ; ") != strings.Join(want, " ; ") {
+		run.violation(Violation{Key: shapeKey(c, "stdlib-reader-differs:"+c.Std), What: "reading the stream through a " + c.Std +
+			" does not give each document decoded directly, then io.EOF", Input: c, Got: clip(strings.Join(got, " ; "), 400), Want: clip(strings.Join(want, " ; "), 400)})
+	}
+}
+
+func clip(s string, n int) string {
+	if len(s) > n {
+		return s[:n/2] + " ... " + s[len(s)-n/2:]
+	}
+	return s
+}
+
+// c13LongDocs: documents longer than any buffer a reader may use internally (sizes around the powers of two from 512 to
+// 65536), with an escaped quote or a trailing escaped backslash placed on and next to the boundary, counted from the start
+// of the stream and from the start of the call; read through the standard-library readers (seed C13-8: a block-wise fast
+// path for readers that can Seek lost the backslash count at a block boundary).
+func c13LongDocs(run *Run, r *Rng) {
+	bounds := []int{512, 1024, 2048, 4096, 8192, 16384, 32768, 65536}
+	for _, b := range bounds {
+		for _, delta := range []int{-1, 0, 1} {
+			for shape := 0; shape < 2; shape++ {
+				lead := r.pick([]string{"", " ", "\n", " \t"})
+				first := ""
+				if r.chance(0.5) {
+					first = `{"n":` + strconv.Itoa(r.Intn(1000)) + `}` + r.pick([]string{"", " ", "\n"})
+				}
+				head := `{"k":"`
+				pad := b - 1 + delta - len(lead) - len(head)
+				if r.chance(0.5) {
+					pad -= len(first) // boundary counted from the start of the stream rather than of the call
+				}
+				if pad < 0 {
+					continue
+				}
+				body := strings.Repeat("ab cd{[", pad/7) + strings.Repeat("x", pad%7)
+				var big string
+				if shape == 0 {
+					big = head + body + `\"q}","z":[1,"}"]}`
+				} else {
+					big = head + body + `\\"}`
+				}
+				last := `{"t":"\\","u":"\""}`
+				stream := first + lead + big + r.pick([]string{"", " ", "\r\n"}) + last + r.pick([]string{"", "\n"})
+				var docs [][]byte
+				if first != "" {
+					docs = append(docs, []byte(strings.TrimSpace(first)))
+				}
+				docs = append(docs, []byte(big), []byte(last))
+				fn := r.pick([]string{"json", "jsonraw"})
+				for _, std := range c13StdReaders {
+					c13StdOne(run, c13Case{Fn: fn, Stream: []byte(stream), Docs: docs, Stop: -1, EhRet: true, Std: std})
+				}
+				// the XML readers over the same sizes: a long text with markup characters as entities at the boundary
+				xhead := "<doc><k>"
+				xpad := b - 1 + delta - len(xhead)
+				if xpad < 0 {
+					continue
+				}
+				xbig := xhead + strings.Repeat("ab cd ", xpad/6) + strings.Repeat("x", xpad%6) + "&lt;q&amp;</k><z a=\"1\"/></doc>"
+				xstream := xbig + r.pick([]string{"", " ", "\n"}) + "<t>1</t>"
+				xfn := r.pick([]string{"xml", "xmlraw", "seq"})
+				for _, std := range c13StdReaders {
+					c13StdOne(run, c13Case{Fn: xfn, Stream: []byte(xstream), Docs: [][]byte{[]byte(xbig), []byte("<t>1</t>")}, Stop: -1, EhRet: true, Std: std})
+				}
+			}
+		}
+	}
+}
+
 func replayC13(raw []byte) error {
 	var c c13Case
 	if err := json.Unmarshal(raw, &c); err != nil {
 		return err
 	}
 	restoreDefaults()
+	if c.Std != "" {
+		got, want := c13StdRun(c)
+		fmt.Printf("function: %s through %s\nstream:   %d bytes, documents end at %v\nobserved: %s\nexpected: %s\n", c.Fn, c.Std, len(c.Stream), c.Ends,
+			clip(strings.Join(got, " ; "), 600), clip(strings.Join(want, " ; "), 600))
+		return nil
+	}
 	tmp, err := os.MkdirTemp("/verif/build", "c13-")
 	if err != nil {
 		return err
